@@ -7,10 +7,10 @@ scratch=$(mktemp -d /tmp/govc-mutant-XXXXXX)
 trap 'rm -rf "$scratch"' EXIT
 rsync -a --exclude .git /repo/ "$scratch/repo/"
 ( cd "$scratch/repo" && patch -p1 -s < "$patch" ) || { echo "patch failed"; exit 3; }
-/verif/bin/govc -repo "$scratch/repo" check -prop "$prop" -tier "$tier" -evidence "$scratch/ev.json" -replays "$scratch/replays" -known /verif/known_findings.json
+/verif/selftest/check_on.sh "$scratch/repo" "$prop" "$tier" "$scratch/out"
 rc=$?
-if [ -d "$scratch/replays" ]; then
-  for f in $(ls "$scratch"/replays/*/*.json 2>/dev/null | head -3); do
+if [ -d "$scratch/out/replays" ]; then
+  for f in $(ls "$scratch"/out/replays/*/*.json 2>/dev/null | head -3); do
     echo "--- $(basename "$f")"; jq -c '{confirmed: .confirmed_on_real_code, inputs: .decoded_inputs, note: .note}' "$f" | cut -c1-400
   done
 fi
